@@ -252,6 +252,8 @@ func (p *Prog) lookupFunc(name, rel string) *ssa.Function {
 		// (*T).M -> (*rel.T).M ; T.M -> (rel.T).M ; f -> rel.f
 		if strings.HasPrefix(name, "(*") {
 			cands = append(cands, "(*"+rel+"."+name[2:])
+		} else if strings.HasPrefix(name, "(") {
+			cands = append(cands, "("+rel+"."+name[1:])
 		} else if i := strings.Index(name, "."); i > 0 && !strings.Contains(name[:i], "/") {
 			cands = append(cands, "("+rel+"."+name[:i]+")"+name[i:])
 			cands = append(cands, rel+"."+name)
